@@ -1,9 +1,400 @@
 package main
 
+import (
+	"bytes"
+	"encoding/json"
+	"fmt"
+	"hash/fnv"
+	"os"
+	"os/exec"
+	"path/filepath"
+	"sort"
+	"strings"
+	"sync"
+	"time"
+)
+
+// Engine E3 (DESIGN §5.3): the real `go test` runner over a bounded
+// program x flag space. A small data-driven module is generated in the scratch
+// directory (replace => /repo, so it is built from the current working tree,
+// uninstrumented), compiled once per worker, and its test binary is run once
+// per cell. The oracle for "ran / did not run" is the trace file written by the
+// test bodies themselves.
+
+type e3Call struct {
+	API string `json:"api"`
+	Cfg string `json:"cfg"`
+	Val string `json:"val,omitempty"`
+}
+
+type e3Sub struct {
+	Name     string   `json:"name"`
+	Skip     string   `json:"skip,omitempty"`
+	Calls    []e3Call `json:"calls"`
+	Parallel bool     `json:"parallel,omitempty"`
+}
+
+type e3Test struct {
+	Skip  string   `json:"skip,omitempty"`
+	Calls []e3Call `json:"calls"`
+	Subs  []e3Sub  `json:"subs,omitempty"`
+}
+
+type e3Spec map[string]e3Test
+
+// test functions of the fixed module: file -> function names
+var e3Files = map[string][]string{
+	"a_test.go": {"TestA", "TestAB", "TestSub", "Test1", "FuzzA"},
+	"b_test.go": {"TestB", "TestNoSnap"},
+}
+
+type e3Worker struct {
+	id  int
+	dir string // module directory (package directory)
+	bin string
+}
+
+func e3Template(name string) string {
+	b, err := os.ReadFile(filepath.Join(verifRoot, "e3", name))
+	if err != nil {
+		fatal(2, "e3 template: %v", err)
+	}
+	return string(b)
+}
+
+// e3WriteModule generates the module sources in dir.
+func e3WriteModule(dir string) error {
+	if err := os.MkdirAll(dir, 0o755); err != nil {
+		return err
+	}
+	gomod := fmt.Sprintf("module e3mod\n\ngo 1.22\n\nrequire github.com/gkampitakis/go-snaps v0.0.0\n\nreplace github.com/gkampitakis/go-snaps => %s\n", repoRoot)
+	// carry over the library's own requirements so that the build resolves offline
+	if b, err := os.ReadFile(filepath.Join(repoRoot, "go.mod")); err == nil {
+		in := false
+		var req []string
+		for _, l := range strings.Split(string(b), "\n") {
+			t := strings.TrimSpace(l)
+			if strings.HasPrefix(t, "require (") {
+				in = true
+				continue
+			}
+			if in && t == ")" {
+				in = false
+				continue
+			}
+			if in && t != "" {
+				req = append(req, "\t"+t)
+			}
+		}
+		if len(req) > 0 {
+			gomod += "\nrequire (\n" + strings.Join(req, "\n") + "\n)\n"
+		}
+	}
+	if err := os.WriteFile(filepath.Join(dir, "go.mod"), []byte(gomod), 0o644); err != nil {
+		return err
+	}
+	if b, err := os.ReadFile(filepath.Join(repoRoot, "go.sum")); err == nil {
+		os.WriteFile(filepath.Join(dir, "go.sum"), b, 0o644)
+	}
+	os.WriteFile(filepath.Join(dir, "interp.go"), []byte(e3Template("interp.go.tmpl")), 0o644)
+	os.WriteFile(filepath.Join(dir, "main_test.go"), []byte(e3Template("main_test.go.tmpl")), 0o644)
+	tf := e3Template("testfile.go.tmpl")
+	for file, fns := range e3Files {
+		sfx := strings.ToUpper(file[:1])
+		var tests strings.Builder
+		for _, fn := range fns {
+			if strings.HasPrefix(fn, "Fuzz") {
+				fmt.Fprintf(&tests, "func %s(f *testing.F) {\n\tf.Add(\"seed\")\n\tf.Fuzz(func(t *testing.T, s string) { run%s(t, t.Name()) })\n}\n\n", fn, sfx)
+			} else {
+				fmt.Fprintf(&tests, "func %s(t *testing.T) { run%s(t, t.Name()) }\n\n", fn, sfx)
+			}
+		}
+		src := strings.NewReplacer("{{FILE}}", file, "{{SFX}}", sfx, "{{TESTS}}", tests.String()).Replace(tf)
+		if err := os.WriteFile(filepath.Join(dir, file), []byte(src), 0o644); err != nil {
+			return err
+		}
+	}
+	return nil
+}
+
+func e3Build(dir string, extraArgs ...string) (string, error) {
+	bin := filepath.Join(dir, "e3.test")
+	args := append([]string{"test", "-c", "-vet=off", "-o", bin}, extraArgs...)
+	args = append(args, ".")
+	cmd := exec.Command("go", args...)
+	cmd.Dir = dir
+	cmd.Env = goEnv()
+	if b, err := cmd.CombinedOutput(); err != nil {
+		return "", fmt.Errorf("e3 build failed: %v\n%s", err, b)
+	}
+	return bin, nil
+}
+
+func e3Workers(scratch string, n int) ([]*e3Worker, error) {
+	ws := make([]*e3Worker, n)
+	errs := make([]error, n)
+	var wg sync.WaitGroup
+	for i := 0; i < n; i++ {
+		wg.Add(1)
+		go func(i int) {
+			defer wg.Done()
+			dir := filepath.Join(scratch, "e3", fmt.Sprintf("w%d", i), "e3mod")
+			if err := e3WriteModule(dir); err != nil {
+				errs[i] = err
+				return
+			}
+			bin, err := e3Build(dir)
+			if err != nil {
+				errs[i] = err
+				return
+			}
+			ws[i] = &e3Worker{id: i, dir: dir, bin: bin}
+		}(i)
+		if i == 0 {
+			wg.Wait() // first build warms the cache for the others
+		}
+	}
+	wg.Wait()
+	for _, e := range errs {
+		if e != nil {
+			return nil, e
+		}
+	}
+	return ws, nil
+}
+
+type e3RunResult struct {
+	stdout string
+	trace  []string
+	exit   int
+}
+
+// run executes the test binary once.
+func (w *e3Worker) run(spec e3Spec, runPat string, count int, env map[string]string) e3RunResult {
+	sb, _ := json.Marshal(spec)
+	trace := filepath.Join(filepath.Dir(w.dir), "trace.txt")
+	os.Remove(trace)
+	args := []string{"-test.count", fmt.Sprint(count), "-test.timeout", "60s"}
+	if runPat != "" {
+		args = append(args, "-test.run", runPat)
+	}
+	cmd := exec.Command("timeout", append([]string{"-k", "5", "90", w.bin}, args...)...)
+	cmd.Dir = w.dir
+	cmd.Env = []string{"PATH=" + os.Getenv("PATH"), "HOME=" + os.Getenv("HOME"), "NO_COLOR=1", "E3_SPEC=" + string(sb), "E3_TRACE=" + trace}
+	for k, v := range env {
+		cmd.Env = append(cmd.Env, k+"="+v)
+	}
+	var out bytes.Buffer
+	cmd.Stdout = &out
+	cmd.Stderr = &out
+	err := cmd.Run()
+	r := e3RunResult{stdout: out.String()}
+	if err != nil {
+		r.exit = 1
+		if ee, ok := err.(*exec.ExitError); ok {
+			r.exit = ee.ExitCode()
+		}
+	}
+	if b, err := os.ReadFile(trace); err == nil {
+		r.trace = strings.Split(strings.TrimSpace(string(b)), "\n")
+	}
+	return r
+}
+
+// snapshot of a directory tree: relative path -> content
+type e3Tree map[string]string
+
+func e3ReadTree(root string) e3Tree {
+	t := e3Tree{}
+	filepath.Walk(root, func(p string, info os.FileInfo, err error) error {
+		if err != nil || info.IsDir() {
+			return nil
+		}
+		rel, _ := filepath.Rel(root, p)
+		b, _ := os.ReadFile(p)
+		t[rel] = string(b)
+		return nil
+	})
+	return t
+}
+
+func e3WriteTree(root string, t e3Tree) {
+	os.RemoveAll(root)
+	os.MkdirAll(root, 0o755)
+	for rel, data := range t {
+		p := filepath.Join(root, rel)
+		os.MkdirAll(filepath.Dir(p), 0o755)
+		os.WriteFile(p, []byte(data), 0o644)
+	}
+}
+
+type e3Entry struct{ ID, Body string }
+
+// e3Parse: tolerant structural reader of the documented file format.
+func e3Parse(data string) ([]e3Entry, error) {
+	var out []e3Entry
+	if data == "" {
+		return out, nil
+	}
+	lines := strings.Split(data, "\n")
+	if strings.HasSuffix(data, "\n") {
+		lines = lines[:len(lines)-1]
+	}
+	for i := 0; i < len(lines); {
+		l := lines[i]
+		if l == "" {
+			i++
+			continue
+		}
+		if !strings.HasPrefix(l, "[") || !strings.HasSuffix(l, "]") {
+			return out, fmt.Errorf("line %d: expected header, found %q", i+1, l)
+		}
+		id := l[1 : len(l)-1]
+		i++
+		var body []string
+		closed := false
+		for i < len(lines) {
+			if lines[i] == "---" {
+				closed = true
+				i++
+				break
+			}
+			body = append(body, lines[i])
+			i++
+		}
+		if !closed {
+			return out, fmt.Errorf("entry %q not terminated", id)
+		}
+		out = append(out, e3Entry{id, strings.Join(body, "\n")})
+	}
+	return out, nil
+}
+
+func e3Render(es []e3Entry) string {
+	var b strings.Builder
+	for _, e := range es {
+		fmt.Fprintf(&b, "\n[%s]\n%s\n---\n", e.ID, e.Body)
+	}
+	return b.String()
+}
+
+type e3Summary struct {
+	present  bool
+	counts   map[string]int
+	obsFiles []string
+	obsTests []string
+}
+
+func e3ParseSummary(out string) e3Summary {
+	s := e3Summary{counts: map[string]int{}}
+	section := ""
+	for _, l := range strings.Split(out, "\n") {
+		l = strings.TrimSpace(l)
+		if strings.Contains(l, "Snapshot Summary") {
+			s.present = true
+			continue
+		}
+		if strings.Contains(l, " snapshot") {
+			f := strings.Fields(l)
+			for i := 0; i+1 < len(f); i++ {
+				var n int
+				if _, err := fmt.Sscanf(f[i], "%d", &n); err != nil || !strings.HasPrefix(f[i+1], "snapshot") {
+					continue
+				}
+				rest := f[i+2:]
+				if len(rest) == 1 {
+					s.counts[rest[0]] += n
+					section = ""
+				} else if len(rest) == 2 {
+					section = strings.TrimSuffix(rest[0], "s")
+				}
+				break
+			}
+			continue
+		}
+		if i := strings.Index(l, "• "); i >= 0 && section != "" {
+			item := l[i+len("• "):]
+			if section == "file" {
+				s.obsFiles = append(s.obsFiles, filepath.Base(item))
+			} else {
+				s.obsTests = append(s.obsTests, item)
+			}
+		}
+	}
+	sort.Strings(s.obsFiles)
+	sort.Strings(s.obsTests)
+	return s
+}
+
+func hash64(parts ...string) uint64 {
+	h := fnv.New64a()
+	for _, p := range parts {
+		h.Write([]byte(p))
+		h.Write([]byte{0})
+	}
+	return h.Sum64()
+}
+
+func (m *merged) set(name string) map[uint64]struct{} {
+	s := m.sets[name]
+	if s == nil {
+		s = map[uint64]struct{}{}
+		m.sets[name] = s
+	}
+	return s
+}
+
+func (m *merged) viol(class, msg string, cs any) {
+	m.violCounts[class]++
+	if len(m.violations[class]) < 5 {
+		b, _ := json.Marshal(cs)
+		m.violations[class] = append(m.violations[class], Violation{Class: class, Msg: msg, Case: b})
+	}
+}
+
 func runE3(p *propInfo, tier string, seed int, scratch, replay string, shardOverride int) *merged {
+	n := 8
+	if shardOverride > 0 {
+		n = shardOverride
+	}
+	if replay != "" {
+		n = 1
+	}
+	start := time.Now()
+	_ = start
+	switch p.id {
+	case "C08":
+		return runC08(tier, scratch, replay, n)
+	case "C11":
+		return runC11(tier, scratch, replay, n)
+	case "C05":
+		return runC05E3(tier, scratch, replay, n)
+	}
 	m := newMerged()
-	m.harnessErrs = append(m.harnessErrs, "E3 not built yet")
+	m.harnessErrs = append(m.harnessErrs, "no E3 driver for "+p.id)
 	return m
 }
 
-func warmE3(scratch string) error { return nil }
+func warmE3(scratch string) error {
+	dir := filepath.Join(scratch, "e3warm", "e3mod")
+	if err := e3WriteModule(dir); err != nil {
+		return err
+	}
+	_, err := e3Build(dir)
+	return err
+}
+
+// e3Parallel runs f over cells on the workers (cells dealt round-robin).
+func e3Parallel[T any](ws []*e3Worker, cells []T, f func(w *e3Worker, c T)) {
+	var wg sync.WaitGroup
+	for wi, w := range ws {
+		wg.Add(1)
+		go func(wi int, w *e3Worker) {
+			defer wg.Done()
+			for i := wi; i < len(cells); i += len(ws) {
+				f(w, cells[i])
+			}
+		}(wi, w)
+	}
+	wg.Wait()
+}
